@@ -8,8 +8,9 @@
    bonds (the checkers decide that output by output), that all enumerated forms aromatise to one form, that the results
    of the real code do not depend on the numbering. *)
 From Coq Require Import ZArith List Bool.
-From Model Require Import PyBase Graph Kekule.
-From Proofs Require Import KekuleProofs.
+From Model Require Import PyBase Graph PeriodicTable Valence Kekule.
+From Gen Require Import Elements.
+From Proofs Require Import KekuleProofs KekuleExt KekuleValence.
 Import ListNotations.
 Open Scope Z_scope.
 
@@ -180,3 +181,69 @@ Theorem C05_kekule_component_examples :
   end = true.
 Proof. exact kekule_component_examples. Qed.
 Print Assumptions C05_kekule_component_examples.
+
+(* ---- EXTENSION ROUND.  form_sound rings db pyr y: y is a perfect matching of exactly the skeleton atoms that need a double
+   bond (every skeleton bond once, orders 1/2, double_bonded atoms no double bond, plain atoms exactly one, pyrrole-type
+   atoms at most one).  The full statement  `kekule_component_sound : rings_wf rings db pyr = true -> every yielded form is
+   form_sound`  was FALSE for the code before fix ad376fe of /repo (a pyrrole-type atom with three skeleton neighbours next to
+   the start atom was visited twice; found here by kekule_component_sound_refuted, whose witness is now a regression input
+   of the check).  For the fixed code it is checked on every form the real generator and the model yield (molecules and
+   generated components) but NOT proved: see kekule_component_sound_partial for what is. *)
+Theorem C05_form_sound_examples :
+  match kekule_component (ring_adj 6) [] 0 [] 7 10 1000 with
+  | Ok (ys, _, _) => forallb (form_sound (ring_adj 6) [] []) ys && (2 <=? List.length ys)%nat | Err _ => false end = true /\
+  match kekule_component (ring_adj 5) [1] 1 [] 7 10 1000 with
+  | Ok (ys, _, _) => forallb (form_sound (ring_adj 5) [1] []) ys && (1 <=? List.length ys)%nat | Err _ => false end = true /\
+  rings_wf (ring_adj 6) [] [] = true /\ rings_wf (ring_adj 5) [1] [] = true.
+Proof. exact form_sound_examples. Qed.
+Print Assumptions C05_form_sound_examples.
+
+(* What IS proved about every form the search yields (for all components, sets, buffer sizes, fuel): one entry per skeleton
+   bond, every entry joins two atoms adjacent in `rings`, has order 1 or 2, and no order-2 entry touches a double_bonded
+   atom.  MISSING for kekule_component_sound: the entries are pairwise different bonds; every plain ring atom gets
+   exactly one and every pyrrole-type atom at most one order-2 entry. *)
+Theorem C05_kekule_component_sound_partial : forall rings db db_start pyr bs maxy fuel ys r c,
+  kekule_component rings db db_start pyr bs maxy fuel = Ok (ys, r, c) ->
+  Forall (ok_form2 rings db (Z.of_nat (fold_right (fun nl s => (List.length (snd nl) + s)%nat) O rings) / 2)) ys.
+Proof. exact kekule_component_sound_partial. Qed.
+Print Assumptions C05_kekule_component_sound_partial.
+
+Theorem C05_kekule_component_entries : forall rings db db_start pyr bs maxy fuel ys r c y a p o,
+  kekule_component rings db db_start pyr bs maxy fuel = Ok (ys, r, c) -> In y ys -> In (a, p, o) y ->
+  zmem a (al_get rings p) = true /\ (o = 1 \/ o = 2) /\ (o = 2 -> zmem a db = false /\ zmem p db = false).
+Proof. exact kekule_component_entries. Qed.
+Print Assumptions C05_kekule_component_entries.
+
+(* ---- the carbon hydrogen theorem (from the GENERATED valence tables of carbon, regenerated from the source on every run):
+   whenever the aromatic special case of calc_implicit gives a neutral non-radical carbon a hydrogen count, every Kekule
+   rewriting of its bonds (aromatic -> single or double, exactly one double) gets the same count from the rules of carbon *)
+Theorem C05_carbon_h_kekule : forall nv nv' h,
+  known nv = true -> 0 < c4 nv ->
+  calc_atom carbon_rules 6 0 false nv = Ok (Some h) ->
+  kek_step nv nv' = true -> new2 nv nv' = 1 ->
+  calc_atom carbon_rules 6 0 false nv' = Ok (Some h).
+Proof. exact carbon_h_kekule. Qed.
+Print Assumptions C05_carbon_h_kekule.
+
+(* molecule level: in EVERY Kekule form accepted by the checker, C04's calc_implicit model gives each neutral non-radical ring
+   carbon without exocyclic double bond exactly the hydrogen count its aromatic form had (valence clause for carbon) *)
+Theorem C05_kekule_rel_carbon_h : forall g g' n l l' a h,
+  kekule_rel_core g g' = true ->
+  In ((n, l), (n, l')) (combine (m_adj g) (m_adj g')) ->
+  atom_of g n = Some a -> a_num a = 6 -> a_chg a = 0 -> a_rad a = false ->
+  arom_deg l <> 0 -> has_ord 2 l = false -> known (nview_of g l) = true ->
+  calc_atom carbon_rules 6 0 false (nview_of g l) = Ok (Some h) ->
+  calc_atom carbon_rules 6 0 false (nview_of g' l') = Ok (Some h).
+Proof. exact kekule_rel_carbon_h. Qed.
+Print Assumptions C05_kekule_rel_carbon_h.
+
+Theorem C05_carbon_h_examples : forall z1 z2 z3,
+  calc_atom carbon_rules 6 0 false [(4, Some z1); (4, Some z2)] = Ok (Some 1) /\
+  calc_atom carbon_rules 6 0 false [(2, Some z1); (1, Some z2)] = Ok (Some 1) /\
+  calc_atom carbon_rules 6 0 false [(4, Some z1); (4, Some z2); (1, Some z3)] = Ok (Some 0) /\
+  calc_atom carbon_rules 6 0 false [(1, Some z1); (2, Some z2); (1, Some z3)] = Ok (Some 0) /\
+  calc_atom carbon_rules 6 0 false [(4, Some z1); (4, Some z2); (4, Some z3)] = Ok (Some 0) /\
+  calc_atom carbon_rules 6 0 false [(1, Some z1); (1, Some z2); (2, Some z3)] = Ok (Some 0) /\
+  calc_atom carbon_rules 6 0 false [(2, Some z1); (2, Some z2)] = Ok (Some 0).
+Proof. exact carbon_h_examples. Qed.
+Print Assumptions C05_carbon_h_examples.
